@@ -8,6 +8,7 @@ import (
 	"math/big"
 	"os"
 	"path/filepath"
+	"runtime/debug"
 	"sort"
 	"strconv"
 	"strings"
@@ -655,7 +656,20 @@ func (rn *runner) runScenario(scn *Scenario) *Outcome {
 		_, err := os.Stat(filepath.Join(dir, subName(sub), name))
 		return err == nil
 	}
-	for _, e := range scn.Events {
+	// descriptors as a resource: every call of the history must leave the process with the
+	// descriptors it had (collector off during the history, so that a descriptor which only a
+	// finalizer would close counts as leaked)
+	oldGC := debug.SetGCPercent(-1)
+	defer debug.SetGCPercent(oldGC)
+	fdBase := fdNames()
+	for ei, e := range scn.Events {
+		if now := fdNames(); fdBase != nil && now != nil {
+			if extra := fdExtra(fdBase, now); len(extra) > 0 && ei > 0 {
+				pe := scn.Events[ei-1]
+				out.find("impl-violation", "fd-baseline", "fd-baseline", fmt.Sprintf("event %d (%s id%d) returned with descriptors still open: %d before the call, %d after it; new: %v", ei-1, pe.Op, pe.ID, len(fdBase), len(now), extra))
+			}
+			fdBase = now
+		}
 		u := clock(N + e.At)
 		out.Events++
 		ia, na := indexPath(e.ID)
@@ -783,6 +797,12 @@ func (rn *runner) runScenario(scn *Scenario) *Outcome {
 			evs = append(evs, fmt.Sprintf("T %d", u))
 		}
 	}
+	if now := fdNames(); fdBase != nil && now != nil && len(scn.Events) > 0 {
+		if extra := fdExtra(fdBase, now); len(extra) > 0 {
+			pe := scn.Events[len(scn.Events)-1]
+			out.find("impl-violation", "fd-baseline", "fd-baseline", fmt.Sprintf("event %d (%s id%d) returned with descriptors still open: %d before the call, %d after it; new: %v", len(scn.Events)-1, pe.Op, pe.ID, len(fdBase), len(now), extra))
+		}
+	}
 	final := snapshot(dir, subs)
 	// ---- the model on the same directory and history
 	if rn.m != nil && !out.has("put-error") {
@@ -873,4 +893,39 @@ func firstDiff(a, b string) string {
 		}
 	}
 	return fmt.Sprintf("lengths %d vs %d", len(fa), len(fb))
+}
+
+// fdNames lists the descriptor numbers of this process (nil when /proc is not available).
+func fdNames() []string {
+	d, err := os.Open("/proc/self/fd")
+	if err != nil {
+		return nil
+	}
+	names, _ := d.Readdirnames(-1)
+	self := strconv.Itoa(int(d.Fd()))
+	d.Close()
+	out := names[:0]
+	for _, n := range names {
+		if n != self {
+			out = append(out, n)
+		}
+	}
+	return out
+}
+
+// fdExtra describes the descriptors of after that are not in before.
+func fdExtra(before, after []string) []string {
+	had := map[string]bool{}
+	for _, n := range before {
+		had[n] = true
+	}
+	var extra []string
+	for _, n := range after {
+		if !had[n] {
+			if t, err := os.Readlink("/proc/self/fd/" + n); err == nil {
+				extra = append(extra, n+"->"+filepath.Base(t))
+			}
+		}
+	}
+	return extra
 }
